@@ -481,7 +481,7 @@ pub fn kvs_with_verifier(seed: u64, worker: usize, slot: &Slot) {
     ];
     let opts = options(&dir, &o);
     // record the bytes written to the store manifest: needed to recognise the known verifier
-    // defect F-C04-1 (a digest removed by two transactions) when a pass fails with NotFound
+    // repaired defect "digest removed by two transactions" when a pass fails with NotFound
     crate::fsx::install(&dir, None);
     let kvs = Arc::new(KeyValueStore::open(opts.clone()).unwrap_or_else(|e| violation("open-error", format!("{e}"))));
     let daemons = start_daemons(&kvs, rng.range(1, 2) as usize);
@@ -530,8 +530,9 @@ pub fn kvs_with_verifier(seed: u64, worker: usize, slot: &Slot) {
                     Err(e) => {
                         let msg = format!("{e}");
                         if removed_twice(&msg) {
+                            // repaired by f60d4cb / c8cb20d; reported if it ever returns
                             known_c04.fetch_add(1, Ordering::SeqCst);
-                            break;
+                            violation("verifier-needs-file-it-already-unlinked:digest-removed-by-two-transactions", msg)
                         }
                         violation(
                             &format!("verifier-error:{}", crate::panic_class(&msg.chars().take(100).collect::<String>())),
@@ -565,6 +566,7 @@ pub fn kvs_with_verifier(seed: u64, worker: usize, slot: &Slot) {
                 let msg = format!("{e}");
                 if removed_twice(&msg) {
                     known_c04.fetch_add(1, Ordering::SeqCst);
+                    violation("verifier-needs-file-it-already-unlinked:digest-removed-by-two-transactions", msg)
                 } else {
                     violation("verifier-error-after-quiescence", msg)
                 }
@@ -617,7 +619,7 @@ pub fn kvs_with_verifier(seed: u64, worker: usize, slot: &Slot) {
     *r.probes.entry("verifier_passes_alongside_store".into()).or_insert(0) += passes.load(Ordering::SeqCst);
     *r.probes.entry("verifier_backoffs_alongside_store".into()).or_insert(0) += backoffs.load(Ordering::SeqCst);
     *r.probes.entry("background_work_units_alongside_verifier".into()).or_insert(0) += work;
-    *r.probes.entry("verifier_stopped_by_known_defect_F-C04-1".into()).or_insert(0) += known_c04.load(Ordering::SeqCst);
+    *r.probes.entry("verifier_stopped_by_repaired_defect_removed_twice".into()).or_insert(0) += known_c04.load(Ordering::SeqCst);
     *r.probes.entry("reopen_comparison_void_known_defect_F-C01-1".into()).or_insert(0) += misordered as u64;
     r.sample = Some(serde_json::json!({"writers": n_w, "options": o.iter().map(|(k, v)| format!("{k}={v}")).collect::<Vec<_>>()}));
     drop(r);
